@@ -23,7 +23,8 @@ RULE = (
 ASSUMPTIONS = [
     "bit 2 / bit 7 are three-zone: bit 2 must be 0 when every candidate window fits the right image, 1 when some "
     "candidate column lies outside the image and some window fits, unspecified otherwise; bit 7 must be 0 when a "
-    "fitting candidate is not masked, 1 when a window fits and every in-image candidate is masked, else unspecified",
+    "fitting candidate is not masked or no in-image candidate is masked at all, 1 when a window fits and every "
+    "in-image candidate is masked, else unspecified",
     "invalid_disparity is NaN or lies outside the searched interval (the property's domain)",
 ]
 
@@ -82,8 +83,8 @@ def ref_bits(ML, MR, gmin, gmax, w, valid, nodata, allnan, shape):
             outside = [d for d in ds if not 0 <= c + d <= W - 1]
             nofit = [d for d in ds if not h <= c + d <= W - 1 - h]
             b2 = 0 if not nofit else (1 if (outside and fit) else None)
-            if any(not invR[r, c + d] for d in fit):
-                b7 = 0
+            if any(not invR[r, c + d] for d in fit) or not any(invR[r, c + d] for d in inimg):
+                b7 = 0  # a fitting candidate is not masked, or no in-image candidate is masked at all
             elif fit and all(invR[r, c + d] for d in inimg):
                 b7 = 1
             else:
